@@ -149,6 +149,7 @@ type walkTrace struct {
 	Abort   int     `json:"abort"`
 	PreNil  int     `json:"preNil"`
 	PostNil int     `json:"postNil"`
+	Hide    []int   `json:"hide"`
 	Evs     [][]int `json:"evs"`
 }
 
@@ -160,6 +161,8 @@ type walkReplay struct {
 	Abort   int    `json:"abort"`
 	PreNil  int    `json:"preNil"`
 	PostNil int    `json:"postNil"`
+	// nodes whose children a custom ChildCount hides (WalkOptions.ChildCount set, WalkOptions.Child left nil)
+	Hide []int `json:"hide"`
 	// the walk made just before this one in the generating process (a violation may depend on it)
 	Prev *walkReplay `json:"prev,omitempty"`
 }
@@ -185,9 +188,12 @@ func walkReal(rb *commonmark.RootBlock, rp *walkReplay) (t *walkTrace, pm string
 			pm = fmt.Sprint(x)
 		}
 	}()
-	t = &walkTrace{Prune: rp.Prune, Abort: rp.Abort, PreNil: rp.PreNil, PostNil: rp.PostNil, Evs: [][]int{}}
+	t = &walkTrace{Prune: rp.Prune, Abort: rp.Abort, PreNil: rp.PreNil, PostNil: rp.PostNil, Hide: rp.Hide, Evs: [][]int{}}
 	if t.Prune == nil {
 		t.Prune = []int{}
+	}
+	if t.Hide == nil {
+		t.Hide = []int{}
 	}
 	ids := map[commonmark.Node]int{}
 	numberTree(rb.AsNode(), 0, &t.Par, &t.Blk, ids)
@@ -213,6 +219,19 @@ func walkReal(rb *commonmark.RootBlock, rp *walkReplay) (t *walkTrace, pm string
 		t.Evs = append(t.Evs, []int{kind, ids[c.Node()], parent, c.Index(), pb, cons})
 	}
 	opts := &commonmark.WalkOptions{}
+	if len(rp.Hide) > 0 {
+		hide := map[int]bool{}
+		for _, h := range rp.Hide {
+			hide[h] = true
+		}
+		// only ChildCount is replaced; Child stays the default
+		opts.ChildCount = func(n commonmark.Node) int {
+			if hide[ids[n]] {
+				return 0
+			}
+			return n.ChildCount()
+		}
+	}
 	if rp.PreNil == 0 {
 		opts.Pre = func(c *commonmark.Cursor) bool {
 			record(1, c)
@@ -285,7 +304,7 @@ func cmdWalk(args []string) *Result {
 			res.addCandidate(Candidate{Sig: map[string]any{"input": ints(input), "class": "panic"}, Record: map[string]any{"kind": "walk", "input": ints(input)}, What: "Walk panicked: " + pm})
 			return
 		}
-		if len(t.Par) > 400 {
+		if len(t.Par) > 1600 {
 			return
 		}
 		sw.write(t, rp)
@@ -318,6 +337,7 @@ func cmdWalk(args []string) *Result {
 			docs = append(docs, []byte(ex))
 		}
 		src.mixed(n, func(d []byte) { docs = append(docs, append([]byte(nil), d...)) })
+		bigTrees(func(d []byte) { docs = append(docs, append([]byte(nil), d...)) })
 		for _, d := range docs {
 			blocks, pm := parseRoute(d, 0)
 			if pm != "" {
@@ -343,6 +363,13 @@ func cmdWalk(args []string) *Result {
 					}
 					if src.rng.Intn(6) == 0 {
 						rp.PostNil = 1
+					}
+					if rep == 1 && src.rng.Intn(3) == 0 {
+						for i := 1; i <= cnt; i++ {
+							if src.rng.Intn(4) == 0 {
+								rp.Hide = append(rp.Hide, i)
+							}
+						}
 					}
 					one(d, rp)
 				}
